@@ -37,7 +37,8 @@ def main():
             try:
                 if not apply(m):
                     print(f"{kind}/{name}: NOT APPLICABLE (text not found)"); bad.append(name); continue
-                rc, out = run(f"cd {REPO} && go build ./... 2>&1 | head -3")
+                sub = "godev" if m["file"].startswith("godev/") else "."
+                rc, out = run(f"cd {REPO}/{sub} && go build ./... 2>&1 | head -3")
                 if out.strip():
                     print(f"{kind}/{name}: does not build: {out.strip()[:200]}"); bad.append(name); continue
                 verdicts = []
